@@ -172,7 +172,7 @@ def is_prefix_scan(scan, final):
 
 
 def gen_cases(tier, rng):
-    n, per = (4, 120) if tier == "quick" else (120, 600)
+    n, per = (4, 120) if tier == "quick" else (30, 300)
     cases = []
     for i in range(n):
         nkeys = rng.choice([4, 8])
